@@ -47,7 +47,7 @@ fn gen_val<'t>(rng: &mut Rng, graph: &mut Graph<'t>, refs: &[GraphNodeRef], ti: 
     }
 }
 
-const ATTRS: &[&str] = &["a", "b", "name", "kind", "zeta", "Alpha", "_x", "x-y", "a1", "a10", "a2", "Kind", "KIND", "name_range", "def", "def_kind", "na"];
+const ATTRS: &[&str] = &["a", "b", "name", "kind", "zeta", "Alpha", "_x", "x-y", "a1", "a10", "a2", "Kind", "KIND", "name_range", "def", "def_kind", "na", "größe", "名前", "é", "naïve_kind"];
 
 fn build_graph<'t>(rng: &mut Rng, ti: &TreeInfo<'t>) -> Graph<'t> {
     let mut graph = Graph::new();
